@@ -206,6 +206,9 @@ def gb_location(spans, strand, form=0, partial=False):
 
     n = len(spans)
     segs = [seg(a, b, i == 0, i == n - 1) for i, (a, b) in enumerate(spans)]
+    if strand == "mixed":
+        assert n == 2
+        return f"join(complement({segs[0]}),{segs[1]})" if form % 2 == 0 else f"join({segs[0]},complement({segs[1]}))"
     if strand == "-":
         if n == 1:
             return f"complement({segs[0]})"
@@ -218,7 +221,7 @@ def gb_location(spans, strand, form=0, partial=False):
 def gb_text(seqid, records):
     lines = [f"LOCUS       {seqid}                        60 bp    DNA     linear   BCT 01-JAN-2000", "FEATURES             Location/Qualifiers"]
     for i, r in enumerate(records):
-        lines.append(f"     {r['biotype']:<16}{gb_location(r['spans'], r['strand'], form=i, partial=r['tag'] and i % 3 == 0)}")
+        lines.append(f"     {r['biotype']:<16}{gb_location(r['spans'], 'mixed' if r.get('mixed') else r['strand'], form=i, partial=r['tag'] and i % 3 == 0 and not r.get('mixed'))}")
         lines.append(f'                     /gene="{r["name"]}"')
         if r["tag"]:
             lines.append(f'                     /note="{TAG}"')
@@ -598,6 +601,46 @@ def check_text(acc, line):
                     if rows != want_cols:
                         acc.fail(f"load_annotations(Gff): start / stop columns differ from the extent of the spans [strand {strand}; read in blocks of a few lines]",
                                  {"part": "text", "line": line, "cls": cls, "strand": strand, "lines_per_block": block}, {"got": str(rows)[:300], "want": str(want_cols)[:300]})
+    # loading only some sequence ids of a GFF file: the ids are chosen so that one is a substring of another; every way
+    # of giving the selection (a str, a list, a tuple, a set) selects by equality
+    from cogent3.core.annotation_db import load_annotations
+
+    sel_ids = ["s1", "s10", "s"]
+    sel_records = [rec("gff", sid, "gene", f"g{k}{j}", sh, "+-"[(k + j) % 2], False)
+                   for k, sid in enumerate(sel_ids) for j, sh in enumerate(shapes(line)[:3])]
+    text = "##gff-version 3\n" + "\n".join(l for r in sel_records for l in gff_lines(r)) + "\n"
+    path = _tmp(".gff3")
+    with open(path, "w") as f:
+        f.write(text)
+    try:
+        for target in sel_ids:
+            want = model_rows([r for r in sel_records if r["seqid"] == target])
+            for form, arg in (("str", target), ("list", [target]), ("tuple", (target,)), ("set", {target})):
+                acc.case(("load-seqids", target, form))
+                r = call(lambda: all_rows(load_annotations(path=path, seqids=arg)))
+                if r != ("ok", want):
+                    acc.fail(f"load_annotations(Gff, seqids given as a {form}): " + (f"raised {r[1]}" if r[0] != "ok" else "records of another sequence id were loaded or some are missing"),
+                             {"part": "text", "line": line, "cls": "Gff", "seqids": target, "form": form}, {"got": str(r[1])[:300], "want": str(want)[:300]})
+    finally:
+        os.remove(path)
+    # GenBank records of which every second one mixes strands (no single strand: stored as none), each directly after an
+    # ordinary record on one strand: nothing of one record may show up in the next
+    two = [sh for sh in shapes(line) if len(sh) == 2]
+    one = [sh for sh in shapes(line) if len(sh) == 1]
+    records = []
+    for i, sh in enumerate(two):
+        records.append(rec("gb", "s1", "gene", "n1", one[i % len(one)], "+-"[i % 2], False))
+        r = rec("gb", "s1", "gene", "n1", sh, None, False)
+        r["mixed"] = True
+        records.append(r)
+    if records:
+        acc.case(("load", "Genbank", "mixed"))
+        r = call(lambda: all_rows(build_db("Genbank", records)))
+        want = model_rows(records)
+        if r != ("ok", want):
+            bad = [(g, w) for g, w in zip(r[1], want) if g != w][:2] if r[0] == "ok" else None
+            acc.fail("load_annotations(Genbank): " + (f"raised {r[1]}" if r[0] != "ok" else "records differ from the text") + " [mixed-strand joins between ordinary records]",
+                     {"part": "text", "line": line, "cls": "Genbank", "strand": "mixed"}, {"first differences": str(bad)[:600]})
     acc.sample({"line": line, "shapes": len(shapes(line)), "spellings": "GFF3 rows; GenBank a..b / a / complement / join / <,>"}, "text")
 
 
